@@ -210,6 +210,10 @@ Inductive wvar := WQ | WU | WZ | WY | WT | WUW | WZW | WQEW | WUEW.
 Definition w_stage (w:wvar) : stage :=
   match w with WQ => 5 | WU => 6 | WZ => 7 | WY => 5 | WT => 4 | WUW => 9 | WZW => 7 | WQEW => 5 | WUEW => 6 end.
 
+(* stage invalidated by the per-subsystem accessor (updZWeights(subsys) invalidates Report, the whole-state form Dynamics) *)
+Definition ws_stage (w:wvar) : stage := match w with WZW => 9 | _ => w_stage w end.
+Definition sub_ok (w:wvar) : bool := match w with WY | WT => false | _ => true end.   (* there is no per-subsystem updY / updTime *)
+
 Inductive op :=
 | AllocQ (ss n:nat) | AllocU (ss n:nat) | AllocZ (ss n:nat)
 | AllocDV (ss:nat) (inval:stage) (v:nat)
@@ -221,7 +225,8 @@ Inductive op :=
 | Upd (w:wvar)
 | SetDV (k:key) (v:nat) | SetCE (k:key) (v:nat)
 | Mark (k:key) | Unmark (k:key) | MarkDVUpd (k:key) | SetDVUpd (k:key) (v:nat)
-| AutoUpdate | GetCE (k:key) | Query.
+| AutoUpdate | GetCE (k:key) | Query
+| UpdSub (w:wvar) (ss:nat).   (* the per-subsystem write accessors updQ(subsys) ... updUErrWeights(subsys) *)
 
 (* result: new state, and whether the call threw.  [guard] = the call is outside the domain the harness ever
    executes (an assert()/index precondition of the code that is undefined behaviour or abort when violated);
@@ -351,6 +356,10 @@ Definition step (cf:cfg) (s:st) (o:op) : st * bool :=
   | AutoUpdate => ok (fold_left (auto_one cf) (all_dv_keys s) s)
   | GetCE k => if negb (has_sub s (fst k) && has_ce s k) then guard s else (s, negb (isUpToDate s k))
   | Query => ok s
+  | UpdSub w ss =>
+      if negb (has_sub s ss && sub_ok w) then guard s else
+      let s1 := invalidateAll (ws_stage w) s in
+      ok (match w with WQ => noteQ s1 | WU => noteU s1 | WZ => noteZ s1 | _ => s1 end)
   end.
 
 (* ---------------------------------------------------------------- copy construction / assignment *)
